@@ -19,6 +19,7 @@
 #include "htp_hooks.h"
 
 extern __thread htp_cfg_t *hx_shared_cfg;
+extern __thread htp_cfg_t *hx_shared_txcfg;
 extern void (*hx_yield_hook)(void);
 extern void (*hx_after_hook)(void);
 htp_cfg_t *hx_build_cfg_for(const hx_case *c);
@@ -36,6 +37,7 @@ static __thread int my_idx = -1;
 static __thread uint64_t my_rng;
 static __thread int my_in_call;
 static htp_cfg_t *shared;
+static htp_cfg_t *shared_tx;     /* application-owned per-transaction configuration shared by all connections of a group (CF_TX_CFG) */
 static int in_flight;                       /* data calls currently executing (free mode; atomics) */
 static uint64_t overlapped_calls, max_in_flight;
 
@@ -90,9 +92,11 @@ static void *worker_main(void *arg) {
         pthread_mutex_unlock(&mu);
     }
     hx_shared_cfg = shared;
+    hx_shared_txcfg = shared_tx;
     hx_run(&w->c, &w->r);
     conc_after();   /* a yield point that was not followed by a data call (create/close/destroy) */
     hx_shared_cfg = NULL;
+    hx_shared_txcfg = NULL;
     if (mode == MODE_BATON) {
         pthread_mutex_lock(&mu);
         alive[my_idx] = 0;
@@ -185,7 +189,8 @@ int hx_mode_conc(int argc, char **argv) {
         }
         shared = hx_build_cfg_for(&W[0].c);
         if (shared == NULL) { fprintf(stderr, "cfg build failed\n"); return 2; }
-        uint64_t h0 = hx_cfg_hash(shared);
+        shared_tx = W[0].c.cfg[CF_TX_CFG] ? hx_build_cfg_for(&W[0].c) : NULL;
+        uint64_t h0 = hx_cfg_hash(shared) ^ (shared_tx ? hx_cfg_hash(shared_tx) * 31 : 0);
         for (int round = 0; round < rounds; round++) {
             ngroup = g;
             sched_rng = hx_splitmix(&rng);
@@ -199,7 +204,7 @@ int hx_mode_conc(int argc, char **argv) {
             for (int i = 0; i < g; i++) pthread_join(th[i], NULL);
             if (nsched == capsched) { capsched = capsched ? capsched * 2 : 256; scheds = realloc(scheds, capsched * sizeof *scheds); }
             scheds[nsched++] = sched_hash;
-            uint64_t h1 = hx_cfg_hash(shared);
+            uint64_t h1 = hx_cfg_hash(shared) ^ (shared_tx ? hx_cfg_hash(shared_tx) * 31 : 0);
             cfg_checks++;
             if (h1 != h0) {
                 cfg_written++;
@@ -228,6 +233,7 @@ int hx_mode_conc(int argc, char **argv) {
         }
         htp_config_destroy(shared);
         shared = NULL;
+        if (shared_tx) { htp_config_destroy(shared_tx); shared_tx = NULL; }
         for (int i = 0; i < g; i++) hx_result_free(&solo[i]);
         pos += (size_t) g;
     }
